@@ -8,17 +8,57 @@ Local Open Scope Z_scope.
 
 (* ---- tables: create / get / list / delete ---- *)
 
-(* creating an existing table: AlreadyExists, nothing changes *)
+(* CreateTable in one equation: the names are validated first (InvalidArgument), then the existence
+   check (AlreadyExists), then the empty table is registered *)
+Theorem C14_create_spec : forall s parent tid fams now coins,
+  step s (mkCall (BCreateTable parent tid fams) now coins) =
+  if negb (valid_tid tid) || negb (valid_parent parent) then (s, fail cInvalidArgument)
+  else match alookup (table_name parent tid) s with
+       | Some _ => (s, fail cAlreadyExists)
+       | None => (set_table s (table_name parent tid) (mkTable (make_fams fams) []),
+                  ok (YTable (table_name parent tid) (make_fams fams)))
+       end.
+Proof. exact create_spec. Qed.
+Print Assumptions C14_create_spec.
+
+(* an invalid table id (not a letter, digit or _ followed by letters, digits, _ - .) or parent (not
+   projects/<project>/instances/<instance>): InvalidArgument, nothing changes *)
+Theorem C14_create_rejects_invalid_names : forall s parent tid fams now coins,
+  valid_tid tid = false \/ valid_parent parent = false ->
+  step s (mkCall (BCreateTable parent tid fams) now coins) = (s, fail cInvalidArgument).
+Proof. exact create_rejects_invalid_names. Qed.
+Print Assumptions C14_create_rejects_invalid_names.
+
+(* creating an existing table: nothing changes; AlreadyExists for valid names (InvalidArgument
+   otherwise: the validation comes first) *)
 Theorem C14_create_existing : forall s parent tid fams now coins t,
   alookup (table_name parent tid) s = Some t ->
-  step s (mkCall (BCreateTable parent tid fams) now coins) = (s, fail cAlreadyExists).
+  step s (mkCall (BCreateTable parent tid fams) now coins) =
+  (s, fail (if valid_tid tid && valid_parent parent then cAlreadyExists else cInvalidArgument)).
 Proof. exact create_existing. Qed.
 Print Assumptions C14_create_existing.
+
+(* a CreateTable answers OK exactly when both names are valid and the table does not exist ... *)
+Theorem C14_create_ok_iff : forall s parent tid fams now coins,
+  br_code (snd (step s (mkCall (BCreateTable parent tid fams) now coins))) = cOK <->
+  valid_tid tid = true /\ valid_parent parent = true /\ alookup (table_name parent tid) s = None.
+Proof. exact create_ok_iff. Qed.
+Print Assumptions C14_create_ok_iff.
+
+(* ... and then it is the registration of the empty table *)
+Theorem C14_create_ok_inv : forall s parent tid fams now coins,
+  br_code (snd (step s (mkCall (BCreateTable parent tid fams) now coins))) = cOK ->
+  valid_tid tid = true /\ valid_parent parent = true /\ alookup (table_name parent tid) s = None
+  /\ step s (mkCall (BCreateTable parent tid fams) now coins) =
+     (set_table s (table_name parent tid) (mkTable (make_fams fams) []),
+      ok (YTable (table_name parent tid) (make_fams fams))).
+Proof. exact create_ok_inv. Qed.
+Print Assumptions C14_create_ok_inv.
 
 (* after a successful create the table exists with the given families, no rows, and GetTable
    returns the families *)
 Theorem C14_create_then_get : forall s parent tid fams now coins now' coins',
-  alookup (table_name parent tid) s = None ->
+  br_code (snd (step s (mkCall (BCreateTable parent tid fams) now coins))) = cOK ->
   let s' := fst (step s (mkCall (BCreateTable parent tid fams) now coins)) in
   alookup (table_name parent tid) s' = Some (mkTable (make_fams fams) [])
   /\ step s' (mkCall (BGetTable (table_name parent tid)) now' coins')
@@ -27,7 +67,7 @@ Proof. exact create_then_get. Qed.
 Print Assumptions C14_create_then_get.
 
 Theorem C14_create_then_listed : forall s parent tid fams now coins now' coins',
-  alookup (table_name parent tid) s = None ->
+  br_code (snd (step s (mkCall (BCreateTable parent tid fams) now coins))) = cOK ->
   let s' := fst (step s (mkCall (BCreateTable parent tid fams) now coins)) in
   exists l, step s' (mkCall (BListTables parent) now' coins') = (s', ok (YTables l))
             /\ In (table_name parent tid) l.
@@ -64,12 +104,14 @@ Theorem C14_delete_then_requests : forall s name now coins t, asorted s -> alook
 Proof. exact delete_then_requests. Qed.
 Print Assumptions C14_delete_then_requests.
 
-(* a re-created table has no rows *)
+(* a re-created table has no rows (the create succeeds: valid names, and the delete made room) *)
 Theorem C14_delete_then_create_empty : forall s parent tid fams now coins now' coins' t, asorted s ->
+  valid_tid tid = true -> valid_parent parent = true ->
   alookup (table_name parent tid) s = Some t ->
   let s1 := fst (step s (mkCall (BDeleteTable (table_name parent tid)) now coins)) in
   let s2 := fst (step s1 (mkCall (BCreateTable parent tid fams) now' coins')) in
-  alookup (table_name parent tid) s2 = Some (mkTable (make_fams fams) []).
+  br_code (snd (step s1 (mkCall (BCreateTable parent tid fams) now' coins'))) = cOK
+  /\ alookup (table_name parent tid) s2 = Some (mkTable (make_fams fams) []).
 Proof. exact delete_then_create_empty. Qed.
 Print Assumptions C14_delete_then_create_empty.
 
@@ -228,8 +270,8 @@ Definition C14_t : table :=
   mkTable [([102%N], None); ([103%N], Some (GMaxVersions 1))]
           [([97%N], [C14_f; C14_g]); ([97; 255]%N, [C14_f]); ([97; 255; 0]%N, [C14_g]);
            ([97; 255; 255]%N, [C14_f; C14_g]); ([98%N], [C14_g])].
-Definition C14_name : bytes := table_name [112%N] [116%N].       (* p/tables/t *)
-Definition C14_other : bytes := table_name [113%N] [116%N].      (* q/tables/t *)
+Definition C14_name : bytes := table_name [112; 114; 111; 106; 101; 99; 116; 115; 47; 112; 47; 105; 110; 115; 116; 97; 110; 99; 101; 115; 47; 105]%N [116%N].       (* projects/p/instances/i/tables/t *)
+Definition C14_other : bytes := table_name [112; 114; 111; 106; 101; 99; 116; 115; 47; 113; 47; 105; 110; 115; 116; 97; 110; 99; 101; 115; 47; 105]%N [116%N].      (* projects/q/instances/i/tables/t *)
 Definition C14_s : server := [(C14_name, C14_t); (C14_other, C14_t)].
 
 Example C14_hyps_met :
@@ -271,3 +313,116 @@ Example C14_modify_atomic_example :
   step C14_s (mkCall (BModifyFamilies C14_name [MCreate [104%N] None; MCreate [102%N] None]) 0 [])
   = (C14_s, fail cAlreadyExists).
 Proof. vm_compute. reflexivity. Qed.
+
+(* ---- table names ---- *)
+
+(* a valid table name is exactly projects/<project>/instances/<instance>/tables/<table id>: six
+   slash-free pieces, none of them empty, "." or ".." *)
+Theorem C14_valid_name_six_segments : forall n, valid_table_name n ->
+  exists pr inst tid,
+    split n s_slash1 = [s_projects; pr; s_instances; inst; s_tables; tid]
+    /\ n = join [s_projects; pr; s_instances; inst; s_tables; tid]
+    /\ plain_seg pr = true /\ plain_seg inst = true /\ valid_tid tid = true
+    /\ noslash pr = true /\ noslash inst = true /\ noslash tid = true.
+Proof. exact valid_name_six_segments. Qed.
+Print Assumptions C14_valid_name_six_segments.
+
+(* the validity of a name can be decided on the name alone *)
+Theorem C14_valid_table_name_iff : forall n, valid_table_name n <-> valid_table_nameb n = true.
+Proof. exact valid_table_name_iff. Qed.
+Print Assumptions C14_valid_table_name_iff.
+
+(* a valid table id contains no "/" *)
+Theorem C14_valid_tid_no_slash : forall tid, valid_tid tid = true ->
+  ~ In 47%N tid /\ split tid s_slash1 = [tid].
+Proof. exact valid_tid_no_slash. Qed.
+Print Assumptions C14_valid_tid_no_slash.
+
+(* a valid name has no empty, "." or ".." piece and no leading "/" *)
+Theorem C14_valid_names_are_clean : forall n, valid_table_name n ->
+  Forall (fun seg => plain_seg seg = true) (split n s_slash1)
+  /\ has_prefix n s_slash1 = false
+  /\ length (split n s_slash1) = 6%nat.
+Proof. exact valid_names_are_clean. Qed.
+Print Assumptions C14_valid_names_are_clean.
+
+(* different valid names = different, non-nested directories: n1/ is never a prefix of n2/ *)
+Theorem C14_valid_names_not_nested : forall n1 n2, valid_table_name n1 -> valid_table_name n2 -> n1 <> n2 ->
+  ~ has_prefix (n2 ++ s_slash1) (n1 ++ s_slash1) = true.
+Proof. exact valid_names_not_nested. Qed.
+Print Assumptions C14_valid_names_not_nested.
+
+(* a valid name determines its parent and its table id *)
+Theorem C14_valid_name_unique_parts : forall p1 t1 p2 t2,
+  valid_parent p1 = true -> valid_tid t1 = true -> valid_parent p2 = true -> valid_tid t2 = true ->
+  table_name p1 t1 = table_name p2 t2 -> p1 = p2 /\ t1 = t2.
+Proof. exact valid_name_unique_parts. Qed.
+Print Assumptions C14_valid_name_unique_parts.
+
+(* only a successful CreateTable adds a name, and the name it adds is valid *)
+Theorem C14_step_new_name : forall s c n,
+  In n (map fst (fst (step s c))) -> ~ In n (map fst s) ->
+  exists parent tid fams, cl_req c = BCreateTable parent tid fams /\ n = table_name parent tid
+    /\ valid_parent parent = true /\ valid_tid tid = true /\ br_code (snd (step s c)) = cOK.
+Proof. exact step_new_name. Qed.
+Print Assumptions C14_step_new_name.
+
+(* every table name registered in any reachable server is valid *)
+Theorem C14_reachable_table_names_valid : forall cs n,
+  In n (map fst (fst (run [] cs))) -> valid_table_name n.
+Proof. exact reachable_table_names_valid. Qed.
+Print Assumptions C14_reachable_table_names_valid.
+
+Theorem C14_reachable_tables_not_nested : forall cs n1 n2 t1 t2,
+  alookup n1 (fst (run [] cs)) = Some t1 -> alookup n2 (fst (run [] cs)) = Some t2 -> n1 <> n2 ->
+  has_prefix (n2 ++ s_slash1) (n1 ++ s_slash1) = false.
+Proof. exact reachable_tables_not_nested. Qed.
+Print Assumptions C14_reachable_tables_not_nested.
+
+Example C14_valid_names :
+  valid_parent ex_parent = true /\ valid_tid ex_tid = true
+  /\ valid_tid [95; 65; 46; 45; 122; 57]%N = true
+  /\ valid_table_nameb (table_name ex_parent ex_tid) = true
+  /\ valid_table_nameb C14_name = true /\ valid_table_nameb C14_other = true.
+Proof. vm_compute. auto 10. Qed.
+
+Example C14_invalid_tids :
+  valid_tid [] = false
+  /\ valid_tid (ex_tid2 ++ s_slash1 ++ s_dotdot ++ s_slash1 ++ ex_tid) = false   (* t2/../t1 *)
+  /\ valid_tid (s_dot ++ s_slash1 ++ ex_tid) = false                             (* ./t1 *)
+  /\ valid_tid s_dotdot = false /\ valid_tid s_dot = false
+  /\ valid_tid (s_dot ++ ex_tid) = false                                         (* .t1 *)
+  /\ valid_tid (45%N :: ex_tid) = false                                          (* -t1 *)
+  /\ valid_tid (ex_tid ++ s_tables_sep ++ ex_tid2) = false.                      (* t1/tables/t2 *)
+Proof. vm_compute. repeat split. Qed.
+
+Example C14_invalid_parents :
+  valid_parent [] = false
+  /\ valid_parent [112%N] = false                                                (* p *)
+  /\ valid_parent (s_slash1 ++ ex_parent) = false                                (* /projects/p/instances/i *)
+  /\ valid_parent (ex_parent ++ s_slash1) = false                                (* projects/p/instances/i/ *)
+  /\ valid_parent (ex_parent ++ s_tables_sep ++ ex_tid) = false                  (* a table name as parent *)
+  /\ valid_parent (s_projects ++ s_slash1 ++ s_dotdot ++ s_slash1 ++ s_instances ++ s_slash1 ++ [105%N]) = false
+  /\ valid_parent (s_projects ++ s_slash1 ++ s_slash1 ++ s_instances ++ s_slash1 ++ [105%N]) = false
+  /\ valid_parent (s_dotdot ++ s_slash1 ++ ex_parent) = false.
+Proof. vm_compute. repeat split. Qed.
+
+(* the requests of the defect (a table id that resolves to another table's files) are refused and
+   leave the server as it was; a valid second table is accepted *)
+Example C14_create_rejected :
+  let s := fst (run [] [mkCall (BCreateTable ex_parent ex_tid []) 0 []]) in
+  s <> []
+  /\ step s (mkCall (BCreateTable ex_parent (ex_tid2 ++ s_slash1 ++ s_dotdot ++ s_slash1 ++ ex_tid) []) 0 [])
+     = (s, fail cInvalidArgument)
+  /\ step s (mkCall (BCreateTable ex_parent (s_dot ++ s_slash1 ++ ex_tid) []) 0 []) = (s, fail cInvalidArgument)
+  /\ step s (mkCall (BCreateTable (table_name ex_parent ex_tid) ex_tid2 []) 0 []) = (s, fail cInvalidArgument)
+  /\ br_code (snd (step s (mkCall (BCreateTable ex_parent ex_tid2 []) 0 []))) = cOK.
+Proof. exact ex_create_rejected. Qed.
+
+(* t1 and t10: one name is a string prefix of the other, the directories are not nested *)
+Example C14_not_nested :
+  let n1 := table_name ex_parent ex_tid in
+  let n2 := table_name ex_parent (ex_tid ++ [48%N]) in
+  valid_table_nameb n1 = true /\ valid_table_nameb n2 = true /\ has_prefix n2 n1 = true
+  /\ has_prefix (n2 ++ s_slash1) (n1 ++ s_slash1) = false.
+Proof. exact ex_not_nested. Qed.
